@@ -241,6 +241,72 @@ def icm_items(run: Run, rng, tier):
     return items
 
 
+def stats_items(run: Run, rng, tier):
+    """analysis.Statistics over sessions of hands played on the engine: the code's per-player samples against Analysis!StatsPayoffs"""
+    import warnings
+    from pokerkit import HandHistory, Statistics
+    from . import games, walk
+    items = []
+    pool_names = ['ann', 'bob', 'cy', 'dee', 'eve', 'fay', 'gus', 'hal', 'ida']
+    sessions = 10 if tier == 'quick' else 120
+    for s in range(sessions):
+        pool = rng.sample(pool_names, rng.randint(2, 6))
+        hands, hhs = [], []
+        rake = 0
+        closed = True
+        for h in range(rng.randint(2, 6)):
+            # finishing stacks written into the history: used as they are (raked hands too); absent: Statistics replays the history,
+            # which carries no rake - those hands are played without one
+            given = rng.random() < 0.5
+            for _ in range(6):
+                spec = games.random_spec(rng, variants=['NT', 'FT', 'PO', 'NS', 'F7S', 'FR', 'N2L1D', 'FB'], max_n=min(6, len(pool) + 1),
+                                         stacks='short', boards=(1,), rake_p=0.3 if given else 0.0, autos='all')
+                if spec['n'] > len(pool) and rng.random() < 0.5:
+                    continue
+                holder = {}
+                rec = walk.play_hand(10 ** 6 + len(items) * 10 + h, spec, rng, walk.Policy(probe_level=0, illegal=0.0, fold=0.1), keep_state=holder)
+                st = holder.get('state')
+                if rec['create']['out'] == 'ok' and st is not None and not st.status:
+                    break
+            else:
+                continue
+            n = spec['n']
+            seats = rng.sample(pool, n) if n <= len(pool) else None
+            start = [int(x) for x in st.starting_stacks]
+            fin = [int(x) for x in st.stacks]
+            with warnings.catch_warnings():
+                warnings.simplefilter('ignore')
+                hh = HandHistory.from_game_state(games.Last.game, st, **({'players': seats} if seats else {}))
+            if given:
+                hh.finishing_stacks = list(fin)
+                run.count('stats_finishing_stacks_given')
+            else:
+                run.count('stats_finishing_stacks_replayed')
+            hhs.append(hh)
+            hands.append({'names': [pool_names.index(x) + 1 for x in seats] if seats else [0] * n, 'start': start, 'fin': fin})
+            rake += sum(start) - sum(fin)
+            closed = closed and seats is not None
+        if not hands:
+            continue
+
+        def enc(d):
+            return [{'name': pool_names.index(k) + 1, 'payoffs': [int(x) for x in v.payoffs], 'count': v.sample_count, 'sum': int(v.payoff_sum),
+                     'meanmilli': int(round(float(v.payoff_mean) * 1000))} for k, v in d.items()]
+        with warnings.catch_warnings():
+            warnings.simplefilter('ignore')
+            whole = Statistics.from_hand_history(*hhs)
+            m = rng.randint(0, len(hhs))
+            a, b = Statistics.from_hand_history(*hhs[:m]), Statistics.from_hand_history(*hhs[m:])
+        merged = {k: Statistics.merge(*[d[k] for d in (a, b) if k in d]) for k in set(a) | set(b)}
+        items.append({'kind': 'stats', 'hands': hands, 'got': enc(whole), 'merged': enc(merged), 'closed': closed, 'rake': rake})
+        run.count('stats_sessions')
+        run.count('stats_hands', len(hands))
+        if any(len(g['payoffs']) >= 2 for g in items[-1]['got']):
+            run.count('stats_player_with_several_hands')
+        run.nontrivial.add(('stats', tuple(tuple(x['names']) + tuple(x['fin']) for x in hands)))
+    return items
+
+
 def check_C18(run: Run):
     rng = random.Random(run.seed * 31 + 18)
     sig = lambda it, m: f"analysis:{it['kind']}"       # noqa: E731
@@ -256,11 +322,17 @@ def check_C18(run: Run):
     items = icm_items(run, rng, run.tier)
     run.sample(items[0])
     run_items(run, items, 'C18_icm', sig=sig)
+    items = stats_items(run, rng, run.tier)
+    run.sample(items[0])
+    run_items(run, items, 'C18_statistics', sig=sig)
     run.rule = ('ranges: every notation form over all 13x13 rank pairs x {plain, s, o} x {-, +}, equal-gap dash forms (sampled in '
                 'quick), invalid dash forms, explicit cards, and lists in 9 separator styles; equities: fully specified deals of 10 '
                 'hand-type tuples incl. split pots with and without a qualifying low, calculate_equities with two sample counts '
                 'and the engine\'s own all-in showdown of the same cards, against Analysis!Shares as exact rationals; ICM: small chip '
                 'vectors x payout vectors against the exact model; calculate_hand_strength with the hero and board complete on 12-20 card decks against the exact expectation over all opponent '
                 'hands (TLC enumerates them; six standard deviations of slack); partial deals: values are shares of one pot; '
-                'Monte-Carlo accuracy for other partial deals is not decided')
-    run.need('range_form:dash', 'range_lists', 'equity_split_pot_deals', 'icm_vectors', 'hand_strength_players:3', 'equity_partial_deals')
+                'Monte-Carlo accuracy for other partial deals is not decided; player statistics (the mechanism the property file anchors under C18): '
+                'sessions of 2-6 engine-played hands over 8 variants with named seats, finishing stacks given or replayed from the history, '
+                'per-player samples / count / sum / mean and merge against Analysis!StatsPayoffs, payoff sums adding up to minus the rake')
+    run.need('range_form:dash', 'range_lists', 'equity_split_pot_deals', 'icm_vectors', 'hand_strength_players:3', 'equity_partial_deals',
+             'stats_sessions', 'stats_player_with_several_hands', 'stats_finishing_stacks_replayed')
